@@ -34,8 +34,6 @@ func c06checkRequest(r *Request) {
 		verifAssert(r.Digest != "", "blob-request-has-digest")
 	case ReqBlobMount:
 		verifAssert(r.Digest != "" && r.FromRepo != "", "mount-has-digest-and-from")
-	case ReqBlobUploadInfo, ReqBlobUploadChunk:
-		verifAssert(r.UploadID != "", "upload-request-has-id")
 	}
 }
 
@@ -58,7 +56,10 @@ func VerifC06_RouteSkeleton() {
 	method := verifAtom("method")
 	k := verifParam("sym", 2)
 	seg := func(name string) string {
-		words := []string{"blobs", "uploads", "manifests", "tags", "referrers", "list", ""}
+		words := []string{"blobs", "uploads", "manifests", "", "tags", "referrers", "list"}
+		if n := verifParam("nwords", len(words)); n < len(words) {
+			words = words[:n]
+		}
 		j := verifChoose(name+".kind", len(words)+1)
 		if j < len(words) {
 			return words[j]
@@ -77,7 +78,11 @@ func VerifC06_RouteSkeleton() {
 	} else {
 		last = verifString("last", k+1)
 	}
-	q := []string{"", "digest=" + c06digest, "digest=bad", "mount=" + c06digest + "&from=a/b", "mount=" + c06digest + "&from=BAD", "mount=" + c06digest, "mount=x&from=a", "n=3&last=x", "n=x", "n=-1", "%zz"}[verifChoose("query", 11)]
+	queries := []string{"", "digest=" + c06digest, "mount=" + c06digest + "&from=a/b", "mount=" + c06digest + "&from=BAD", "digest=bad", "%zz", "mount=" + c06digest, "mount=x&from=a", "n=3&last=x", "n=x", "n=-1"}
+	if n := verifParam("nq", len(queries)); n < len(queries) {
+		queries = queries[:n]
+	}
+	q := queries[verifChoose("query", len(queries))]
 	path := "/v2/" + repo + "/" + word + "/" + last
 	r, err := Parse(method, &url.URL{Path: path, RawQuery: q})
 	verifObserve("ok", err == nil)
